@@ -125,6 +125,381 @@ def b08(ctx, orc):
     return fails
 
 
+# -- lattice level ------------------------------------------------------------------------------------------
+
+def _emask(orc, c):
+    return orc.omask(c.extent)
+
+
+def _multisets(cs, cap=400):
+    """all pairs and all multisets of size 3 (with repeats) for small lattices; a deterministic stride beyond"""
+    out = [[]] + [[a] for a in cs] + [[a, b] for a in cs for b in cs]
+    tri = [[a, b, c] for a in cs for b in cs for c in cs]
+    if len(tri) > cap:
+        step = len(tri) // cap + 1
+        tri = tri[::step]
+    return out + tri
+
+
+def b03(ctx, orc):
+    fails = []
+    lat = ctx.lattice
+    got = [(tuple(e), tuple(i)) for e, i in lat]
+    want = [(orc.olabels(e), orc.plabels(i)) for e, i in orc.concepts()]
+    if sorted(got) != sorted(want):
+        fails.append(f'concepts {sorted(got)!r} != formal concepts {sorted(want)!r}')
+    if len(set(got)) != len(got):
+        fails.append('a concept is repeated in the lattice')
+    for e, i in got:
+        if orc.intent(orc.omask(e)) != orc.pmask(i) or orc.extent(orc.pmask(i)) != orc.omask(e):
+            fails.append(f'({e!r}, {i!r}) is not a formal concept')
+    if len(lat) != len(want):
+        fails.append(f'len(lattice) = {len(lat)}, expected {len(want)}')
+    if orc.olabels(orc.bottom()) not in [e for e, _ in got]:
+        fails.append('bottom (closure of the empty set) missing')
+    if orc.objects not in [e for e, _ in got]:
+        fails.append('top (all objects) missing')
+    if all(all(r) for r in orc.table) and len(lat) != 1:
+        fails.append('all-crosses table must give a one-element lattice')
+    return fails
+
+
+def b04(ctx, orc):
+    import concepts
+    from concepts import algorithms
+    fails = []
+    want = sorted((orc.olabels(e), orc.plabels(i)) for e, i in orc.concepts())
+    outs = {
+        'fast_generate_from': [(tuple(e.members()), tuple(i.members())) for e, i in algorithms.fast_generate_from(ctx)],
+        'fcbo_dual': [(tuple(e.members()), tuple(i.members())) for e, i in algorithms.fcbo_dual(ctx)],
+        'get_concepts': [(tuple(c.extent.members()), tuple(c.intent.members())) for c in algorithms.get_concepts(ctx)],
+        'iterconcepts': [(tuple(c.extent.members()), tuple(c.intent.members())) for c in algorithms.iterconcepts(ctx)],
+        'lattice': [(tuple(e), tuple(i)) for e, i in ctx.lattice],
+    }
+    for name, got in outs.items():
+        if len(set(got)) != len(got):
+            fails.append(f'{name}: a concept is produced twice')
+        if sorted(got) != want:
+            fails.append(f'{name}: {sorted(got)!r} != formal concepts {want!r}')
+    gc = algorithms.get_concepts(ctx)
+    if not isinstance(gc, list) or not all(hasattr(c, 'extent') and hasattr(c, 'intent') for c in gc):
+        fails.append('get_concepts does not return a list of Concept pairs')
+    return fails
+
+
+def b05(ctx, orc):
+    fails = []
+    lat = ctx.lattice
+    by_ext = {_emask(orc, c): c for c in lat}
+    for c in lat:
+        e = _emask(orc, c)
+        up = [_emask(orc, u) for u in c.upper_neighbors]
+        lo = [_emask(orc, l) for l in c.lower_neighbors]
+        if sorted(up) != sorted(orc.upper_covers(e)):
+            fails.append(f'upper_neighbors of {c.extent!r}: {sorted(up)} != covers {sorted(orc.upper_covers(e))}')
+        if sorted(lo) != sorted(orc.lower_covers(e)):
+            fails.append(f'lower_neighbors of {c.extent!r}: {sorted(lo)} != covers {sorted(orc.lower_covers(e))}')
+        if len(set(up)) != len(up) or len(set(lo)) != len(lo):
+            fails.append(f'neighbor repeats at {c.extent!r}')
+        for u in c.upper_neighbors:
+            if c not in u.lower_neighbors:
+                fails.append(f'not converse: {u.extent!r} upper of {c.extent!r}')
+            if by_ext.get(_emask(orc, u)) is not u:
+                fails.append('upper neighbor is not a member of the lattice')
+        for l in c.lower_neighbors:
+            if c not in l.upper_neighbors:
+                fails.append(f'not converse: {l.extent!r} lower of {c.extent!r}')
+    for q in label_queries(orc.objects):
+        base = orc.closure_o(orc.omask(q))
+        want = sorted((orc.olabels(u), orc.plabels(orc.intent(u))) for u in orc.upper_covers(base))
+        got = ctx.neighbors(list(q))
+        if sorted((tuple(e), tuple(i)) for e, i in got) != want or len(got) != len(want):
+            fails.append(f'context.neighbors({q!r}) = {got!r}, expected {want!r}')
+        raw = ctx.neighbors(list(q), raw=True)
+        if sorted((rawmask(e), rawmask(i)) for e, i in raw) != sorted((u, orc.intent(u)) for u in orc.upper_covers(base)):
+            fails.append(f'context.neighbors({q!r}, raw=True) differs from the upper covers')
+    return fails
+
+
+def b06(ctx, orc):
+    fails = []
+    lat = ctx.lattice
+    cs = list(lat)
+    got = [_emask(orc, c) for c in cs]
+    want = orc.extents()
+    if got != want:
+        fails.append(f'iteration order {got} != shortlex order {want}')
+    if [c.index for c in cs] != list(range(len(cs))):
+        fails.append(f'index values {[c.index for c in cs]}')
+    dorder = sorted(want, key=orc.longlex)
+    for c in cs:
+        e = _emask(orc, c)
+        if e in dorder and c.dindex != dorder.index(e):
+            fails.append(f'dindex of {c.extent!r} = {c.dindex}, expected {dorder.index(e)}')
+        if [_emask(orc, u) for u in c.upper_neighbors] != orc.upper_covers(e):
+            fails.append(f'upper_neighbors of {c.extent!r} not in shortlex order: {[u.extent for u in c.upper_neighbors]}')
+        if [_emask(orc, l) for l in c.lower_neighbors] != orc.lower_covers(e):
+            fails.append(f'lower_neighbors of {c.extent!r} not in longlex order: {[l.extent for l in c.lower_neighbors]}')
+    if lat.infimum is not cs[0] or _emask(orc, lat.infimum) != orc.bottom():
+        fails.append('infimum is not the first/least concept')
+    if lat.supremum is not cs[-1] or _emask(orc, lat.supremum) != orc.full_o:
+        fails.append('supremum is not the last/greatest concept')
+    if any(not (lat.infimum <= c and c <= lat.supremum) for c in cs):
+        fails.append('infimum/supremum are not least/greatest')
+    if [_emask(orc, a) for a in lat.atoms] != orc.upper_covers(orc.bottom()):
+        fails.append(f'atoms {[a.extent for a in lat.atoms]} != upper covers of the infimum')
+    return fails
+
+
+def b02(ctx, orc):
+    fails = []
+    lat = ctx.lattice
+    cs = list(lat)
+    by_ext = {_emask(orc, c): c for c in cs}
+    for q in label_queries(orc.objects):
+        if not q:
+            continue
+        e = orc.closure_o(orc.omask(q))
+        want = (orc.olabels(e), orc.plabels(orc.intent(e)))
+        for form in (list(q), tuple(reversed(q)), list(q) + list(q)):
+            got = ctx[form]
+            if (tuple(got[0]), tuple(got[1])) != want:
+                fails.append(f'context[{form!r}] = {got!r}, expected {want!r}')
+        raw = ctx.__getitem__(list(q), raw=True)
+        if (rawmask(raw[0]), rawmask(raw[1])) != (e, orc.intent(e)):
+            fails.append(f'context.__getitem__({q!r}, raw=True) wrong')
+        if lat[list(q)] is not by_ext.get(e) or lat[tuple(q)] is not by_ext.get(e):
+            fails.append(f'lattice[{q!r}] is not the member with extent {orc.olabels(e)!r}')
+    for q in label_queries(orc.properties):
+        x = orc.extent(orc.pmask(q))
+        if q:
+            want = (orc.olabels(x), orc.plabels(orc.intent(x)))
+            for form in (list(q), tuple(reversed(q)), list(q) + list(q)):
+                got = ctx[form]
+                if (tuple(got[0]), tuple(got[1])) != want:
+                    fails.append(f'context[{form!r}] = {got!r}, expected {want!r}')
+            if lat[list(q)] is not by_ext.get(x):
+                fails.append(f'lattice[{q!r}] is not the member with extent {orc.olabels(x)!r}')
+        for form in (list(q), tuple(reversed(q))):
+            got = lat(form)
+            if got is not by_ext.get(x):
+                fails.append(f'lattice({form!r}) is not the member with extent {orc.olabels(x)!r}')
+            elif tuple(got.intent) != orc.plabels(orc.intent(x)):
+                fails.append(f'lattice({form!r}).intent wrong')
+    for i, c in enumerate(cs):
+        if lat[i] is not c:
+            fails.append(f'lattice[{i}] is not the {i}-th member in iteration order')
+    if lat[-1] is not cs[-1] or lat[()] is not cs[-1] or _emask(orc, lat[()]) != orc.full_o:
+        fails.append('lattice[()] is not the top concept')
+    for c in cs:
+        e, i = _emask(orc, c), orc.pmask(c.intent)
+        if orc.intent(e) != i or orc.extent(i) != e:
+            fails.append(f'member {c.extent!r} is not a formal concept')
+    return fails
+
+
+def b07(ctx, orc):
+    fails = []
+    lat = ctx.lattice
+    cs = list(lat)
+    by_ext = {_emask(orc, c): c for c in cs}
+    if lat.join([]) is not lat.infimum:
+        fails.append('empty join is not the infimum')
+    if lat.meet([]) is not lat.supremum:
+        fails.append('empty meet is not the supremum')
+    for ms in _multisets(cs):
+        es = [_emask(orc, c) for c in ms]
+        j = lat.join(iter(ms))
+        mt = lat.meet(list(ms))
+        if j is not by_ext.get(orc.join(es)):
+            fails.append(f'join({[c.extent for c in ms]}) = {j.extent!r}, expected {orc.olabels(orc.join(es))!r}')
+        if mt is not by_ext.get(orc.meet(es)):
+            fails.append(f'meet({[c.extent for c in ms]}) = {mt.extent!r}, expected {orc.olabels(orc.meet(es))!r}')
+        if len(fails) > 20:
+            return fails
+    for a in cs:
+        if (a | a) is not a or (a & a) is not a:
+            fails.append(f'idempotence at {a.extent!r}')
+        for b in cs:
+            ea, eb = _emask(orc, a), _emask(orc, b)
+            jn, mt = by_ext.get(orc.join([ea, eb])), by_ext.get(orc.meet([ea, eb]))
+            if a.join(b) is not jn or (a | b) is not jn:
+                fails.append(f'{a.extent!r} | {b.extent!r} = {(a | b).extent!r}, expected {jn.extent if jn else None!r}')
+            if a.meet(b) is not mt or (a & b) is not mt:
+                fails.append(f'{a.extent!r} & {b.extent!r} = {(a & b).extent!r}, expected {mt.extent if mt else None!r}')
+            if (a | b) is not (b | a) or (a & b) is not (b & a):
+                fails.append(f'commutativity at {a.extent!r}, {b.extent!r}')
+            if (a | (a & b)) is not a or (a & (a | b)) is not a:
+                fails.append(f'absorption at {a.extent!r}, {b.extent!r}')
+            le = bool(a <= b)
+            if le != ((a | b) is b) or le != ((a & b) is a):
+                fails.append(f'x<=y iff x|y is y iff x&y is x fails at {a.extent!r}, {b.extent!r}')
+            if len(fails) > 20:
+                return fails
+    trip = [(a, b, c) for a in cs for b in cs for c in cs]
+    if len(trip) > 600:
+        trip = trip[::len(trip) // 600 + 1]
+    for a, b, c in trip:
+        if ((a | b) | c) is not (a | (b | c)) or ((a & b) & c) is not (a & (b & c)):
+            fails.append(f'associativity at {a.extent!r}, {b.extent!r}, {c.extent!r}')
+            break
+    return fails
+
+
+def b09(ctx, orc):
+    fails = []
+    lat = ctx.lattice
+    cs = list(lat)
+    dsorted = sorted(cs, key=lambda c: c.dindex)
+    ext = {id(c): _emask(orc, c) for c in cs}
+    for c in cs:
+        e = ext[id(c)]
+        up = list(c.upset())
+        want = [d for d in cs if ext[id(d)] & e == e]
+        if len(up) != len(want) or any(x is not y for x, y in zip(up, want)):
+            fails.append(f'upset of {c.extent!r}: {[x.index for x in up]} != {[x.index for x in want]}')
+        dn = list(c.downset())
+        wantd = [d for d in dsorted if ext[id(d)] & e == ext[id(d)]]
+        if len(dn) != len(wantd) or any(x is not y for x, y in zip(dn, wantd)):
+            fails.append(f'downset of {c.extent!r}: {[x.dindex for x in dn]} != {[x.dindex for x in wantd]}')
+    for ms in _multisets(cs, cap=250):
+        es = [ext[id(c)] for c in ms]
+        for form in (list(ms), iter(list(ms))):
+            up = list(lat.upset_union(form))
+            want = [d for d in cs if any(ext[id(d)] & e == e for e in es)]
+            if len(up) != len(want) or any(x is not y for x, y in zip(up, want)):
+                fails.append(f'upset_union({[c.index for c in ms]}): {[x.index for x in up]} != {[x.index for x in want]}')
+        dn = list(lat.downset_union(list(ms)))
+        wantd = [d for d in dsorted if any(ext[id(d)] & e == ext[id(d)] for e in es)]
+        if len(dn) != len(wantd) or any(x is not y for x, y in zip(dn, wantd)):
+            fails.append(f'downset_union({[c.index for c in ms]}): {[x.dindex for x in dn]} != {[x.dindex for x in wantd]}')
+        if len(fails) > 20:
+            break
+    return fails
+
+
+def b10(ctx, orc):
+    fails = []
+    lat = ctx.lattice
+    cs = list(lat)
+    ext = {id(c): _emask(orc, c) for c in cs}
+    for c in cs:
+        e = ext[id(c)]
+        if tuple(c.objects) != orc.object_labels(e):
+            fails.append(f'objects label of {c.extent!r} = {c.objects!r}, expected {orc.object_labels(e)!r}')
+        if tuple(c.properties) != orc.property_labels(e):
+            fails.append(f'properties label of {c.extent!r} = {c.properties!r}, expected {orc.property_labels(e)!r}')
+        if not isinstance(c.objects, tuple) or not isinstance(c.properties, tuple):
+            fails.append(f'labels of {c.extent!r} are not tuples')
+        down = [d for d in cs if ext[id(d)] & e == ext[id(d)]]
+        up = [d for d in cs if ext[id(d)] & e == e]
+        if sorted(o for d in down for o in d.objects) != sorted(c.extent):
+            fails.append(f'extent of {c.extent!r} is not the union of object labels in its downset')
+        if sorted(p for d in up for p in d.properties) != sorted(c.intent):
+            fails.append(f'intent of {c.extent!r} is not the union of property labels in its upset')
+        want_atoms = [a for a in lat.atoms if _emask(orc, a) & e == _emask(orc, a)]
+        got_atoms = list(c.atoms)
+        if len(got_atoms) != len(want_atoms) or any(a not in want_atoms for a in got_atoms) \
+                or len({id(a) for a in got_atoms}) != len(got_atoms):
+            fails.append(f'atoms of {c.extent!r}: {[a.extent for a in got_atoms]}')
+    for o in orc.objects:
+        if sum(list(c.objects).count(o) for c in cs) != 1:
+            fails.append(f'object {o!r} does not label exactly one concept')
+    for p in orc.properties:
+        if sum(list(c.properties).count(p) for c in cs) != 1:
+            fails.append(f'property {p!r} does not label exactly one concept')
+    return fails
+
+
+def b18(ctx, orc):
+    fails = []
+    lat = ctx.lattice
+    for c in lat:
+        e = _emask(orc, c)
+        full_intent = orc.plabels(orc.intent(e))
+        attrs = [tuple(a) for a in c.attributes()]
+        if e == 0:
+            if attrs != [full_intent]:
+                fails.append(f'attributes() of the empty-extent concept = {attrs!r}, expected [{full_intent!r}]')
+        else:
+            want = [orc.plabels(g) for g in orc.generators(e)]
+            if attrs != want:
+                fails.append(f'attributes() of {c.extent!r} = {attrs!r}, expected {want!r}')
+            for a in attrs:
+                if lat(a) is not c:
+                    fails.append(f'lattice({a!r}) does not regenerate {c.extent!r}')
+        mn = tuple(c.minimal())
+        if c is lat.infimum:
+            if mn != full_intent:
+                fails.append(f'infimum.minimal() = {mn!r}, expected its full intent {full_intent!r}')
+        elif attrs and mn != attrs[0]:
+            fails.append(f'minimal() of {c.extent!r} = {mn!r}, expected {attrs[0]!r}')
+    return fails
+
+
+import re
+_NODE = re.compile(r'^\t(c\d+)$')
+_EDGE = re.compile(r'^\t(c\d+) -> (c\d+)(?: \[(.*)\])?$')
+
+
+def _unquote(s):
+    if s.startswith('"') and s.endswith('"'):
+        return s[1:-1].replace('\\"', '"')
+    return s
+
+
+def parse_dot(src):
+    nodes, edges, labels = [], [], []
+    for line in src.splitlines():
+        mn = _NODE.match(line)
+        if mn:
+            nodes.append(mn.group(1))
+            continue
+        me = _EDGE.match(line)
+        if me:
+            a, b, attrs = me.groups()
+            if attrs is None:
+                edges.append((a, b))
+            else:
+                d = dict((k, _unquote(v)) for k, v in re.findall(r'(\w+)=("(?:[^"\\]|\\.)*"|[^\s\]]+)', attrs))
+                labels.append((a, b, d))
+    return nodes, edges, labels
+
+
+def b20(ctx, orc):
+    fails = []
+    lat = ctx.lattice
+    cs = list(lat)
+    for mo, mp, tag in ((' '.join, ' '.join, 'default'), (lambda xs: '+'.join(xs) + '!', lambda xs: '/'.join(reversed(xs)), 'custom')):
+        kw = {} if tag == 'default' else {'make_object_label': mo, 'make_property_label': mp}
+        dot = lat.graphviz(**kw)
+        nodes, edges, labels = parse_dot(dot.source)
+        if nodes != [f'c{c.index}' for c in cs] or len(set(nodes)) != len(cs):
+            fails.append(f'{tag}: nodes {nodes} != one per concept')
+        want_edges = sorted((f'c{c.index}', f'c{l.index}') for c in cs for l in cs
+                            if orc.omask(l.extent) in orc.lower_covers(orc.omask(c.extent)))
+        if sorted(edges) != want_edges:
+            fails.append(f'{tag}: edges {sorted(edges)} != covering pairs {want_edges}')
+        want_labels = []
+        for c in cs:
+            e = orc.omask(c.extent)
+            ol, pl = orc.object_labels(e), orc.property_labels(e)
+            if ol:
+                want_labels.append((f'c{c.index}', 'headlabel', mo(ol)))
+            if pl:
+                want_labels.append((f'c{c.index}', 'taillabel', mp(pl)))
+        got_labels = []
+        for a, b, d in labels:
+            if a != b:
+                fails.append(f'{tag}: attributed edge between different nodes {a} -> {b}')
+            for k in ('headlabel', 'taillabel'):
+                if k in d:
+                    got_labels.append((a, k, d[k]))
+        if sorted(got_labels) != sorted(want_labels):
+            fails.append(f'{tag}: label edges {sorted(got_labels)} != {sorted(want_labels)}')
+    return fails
+
+
 def make(concepts, case):
     """(context, oracle) for a replay case with objects/properties/table"""
     ctx = concepts.Context(case['objects'], case['properties'], [tuple(r) for r in case['table']])
